@@ -196,7 +196,9 @@ def with_family(f):
     c1 = f.small_select('a')
     if f.opt('nested'): c1['calls'].insert(0, ['with_cte', {'ctes': [{'name': 'deep', 'query': f.small_select('d')}]}])
     ctes = [{'name': 'cte1', 'query': c1}]
-    if f.b != 'mysql' and f.opt('materialized'): ctes[0]['materialized'] = True
+    if f.b != 'mysql':
+        mk = f.pick('materialized', 3)
+        if mk: ctes[0]['materialized'] = (mk == 1)      # MATERIALIZED / NOT MATERIALIZED
     if f.opt('cte2'): ctes.append({'name': 'cte2', 'cols': ['x'], 'query': f.small_select('b')})
     kind = f.pick('kind', 3)
     if kind == 0:
